@@ -1,5 +1,5 @@
 import StepModel.P21.Writer
-import StepModel.P21.ReaderLemmas2
+import StepModel.P21.ReaderLemmas4
 import StepModel.Generated.P21RWGen
 /-! # C01 — exchange files survive read-then-write: property theorems
 
@@ -174,17 +174,10 @@ inductive Covered {F} (env : Env F) : Param F → Prop where
       (before after : List Byte) (hbf : Seps before) (ha : Seps after) :
       Covered env { a := a, v := .one (.atom (.real v)), tok := tok, before := before, after := after }
 
-/-- **read (render p ℓ) = p for records over the covered kinds** (`_partial`: NUMBER attributes, aggregates of
-    element types other than INTEGER, selects are *not* covered by this theorem — for them `ParamOK` is a
-    hypothesis of `C01_read_record_of_params`; they are tied by correspondence only).  Every dictionary, every reader
-    configuration in which `CheckRemainingInput` and the aggregate element loops skip comments, every layout, any number of parameters. -/
-theorem C01_read_record_partial {F} (env : Env F) (strict : Bool) (hcfg : env.lex.criSkipsComments = true)
-    (hagg : env.cfg.aggrSkipsComments = true) (ps : List (Param F)) (hne : ps ≠ []) (hc : ∀ p ∈ ps, Covered env p) (l : List Byte) (sk : Bool) (rest : List Byte) :
-    ∃ sk', instSTEPread env strict (ps.map (·.a)) (G l (40 :: (renderParams ps ++ rest)) sk) =
-      .ok ⟨.null, ps.map (·.v), G ((40 :: renderParams ps).reverse ++ l) rest sk'⟩ := by
-  apply instSTEPread_params env strict ps hne
-  intro p hp
-  cases hc p hp with
+/-- every covered parameter is read to its value wherever it stands -/
+theorem covered_ok {F} (env : Env F) (strict : Bool) (hcfg : env.lex.criSkipsComments = true)
+    (hagg : env.cfg.aggrSkipsComments = true) (p : Param F) (hc : Covered env p) : ParamOK env strict p := by
+  cases hc with
   | dollar a hopt hder hred before after hb ha => exact ParamOK.dollar env strict hcfg a hopt hder hred before after hb ha
   | star a hder hred before after hb ha => exact ParamOK.star env strict hcfg a hder hred before after hb ha
   | integer a hty hder hred tok htok hlo hhi before after hb ha =>
@@ -201,6 +194,16 @@ theorem C01_read_record_partial {F} (env : Env F) (strict : Bool) (hcfg : env.le
     exact ParamOK.binary env strict hcfg a hty hder hred hex hne hhex before after hbf ha
   | real a hty hder hred tok dec v htok hden hv hnn hbuf before after hbf ha =>
     exact ParamOK.real env strict hcfg a hty hder hred tok dec v htok hden hv hnn hbuf before after hbf ha
+
+/-- **read (render p ℓ) = p for records over the covered kinds** (`_partial`: NUMBER attributes, aggregates of
+    element types other than INTEGER, selects are *not* covered by this theorem — for them `ParamOK` is a
+    hypothesis of `C01_read_record_of_params`; they are tied by correspondence only).  Every dictionary, every reader
+    configuration in which `CheckRemainingInput` and the aggregate element loops skip comments, every layout, any number of parameters. -/
+theorem C01_read_record_partial {F} (env : Env F) (strict : Bool) (hcfg : env.lex.criSkipsComments = true)
+    (hagg : env.cfg.aggrSkipsComments = true) (ps : List (Param F)) (hne : ps ≠ []) (hc : ∀ p ∈ ps, Covered env p) (l : List Byte) (sk : Bool) (rest : List Byte) :
+    ∃ sk', instSTEPread env strict (ps.map (·.a)) (G l (40 :: (renderParams ps ++ rest)) sk) =
+      .ok ⟨.null, ps.map (·.v), G ((40 :: renderParams ps).reverse ++ l) rest sk'⟩ := by
+  exact instSTEPread_params env strict ps hne (fun p hp => covered_ok env strict hcfg hagg p (hc p hp)) l sk rest
 
 /-- the hypotheses are satisfiable: `( /* c */ -17 /**/ , $ )` for (INTEGER, OPTIONAL REAL) -/
 def exI : AttrD := { name := "i", ty := .one .integer, optional := false }
@@ -326,6 +329,74 @@ theorem C01_record_write_read_partial {F} (env : Env F) (strict : Bool) (hcfg : 
   rw [e]
   exact ⟨_, hr⟩
 
+
+/-! ### the whole data section: two passes, every layout -/
+
+/-- `SkipInstance` of pass 1 gets over the token of every covered kind -/
+theorem covered_scan {F} (env : Env F) (p : Param F) (h : Covered env p) : ParamScan p := by
+  cases h with
+  | dollar a hopt hder hred before after hb ha => exact ⟨(Passes.plain 36 (by decide)).toS, hb, ha⟩
+  | star a hder hred before after hb ha => exact ⟨(Passes.plain 42 (by decide)).toS, hb, ha⟩
+  | integer a hty hder hred tok htok hlo hhi before after hb ha =>
+    exact ⟨(Passes.all_plain _ (isInteger_plain _ htok)).toS, hb, ha⟩
+  | ref a tg hty hder hred ds hne hds hhi hfound before after hb ha =>
+    exact ⟨(Passes.append (a := [35]) (Passes.plain 35 (by decide))
+      (Passes.all_plain _ (all_imp (fun c => digit_plain) _ hds))).toS, hb, ha⟩
+  | aggrInt a hty hder hred es inner hok hin before after hb ha => exact ⟨(Passes.aggrText es inner hok hin).toS, hb, ha⟩
+  | string a hty hder hred b hb before after hbf ha => exact ⟨PassesS.string b hb, hbf, ha⟩
+  | enum a ty hty het hder hred name i hne hname hfind hset before after hbf ha =>
+    exact ⟨(Passes.append (a := [46]) (Passes.plain 46 (by decide))
+      (Passes.append (Passes.all_plain _ (all_imp (fun c => pw_plain) _ hname)) (Passes.plain 46 (by decide)))).toS, hbf, ha⟩
+  | binary a hty hder hred hex hne hhex before after hbf ha =>
+    exact ⟨(Passes.append (a := [34]) (Passes.plain 34 (by decide))
+      (Passes.append (Passes.all_plain _ (all_imp (fun c => xdigit_plain) _ hhex)) (Passes.plain 34 (by decide)))).toS, hbf, ha⟩
+  | real a hty hder hred tok dec v htok hden hv hnn hbuf before after hbf ha =>
+    exact ⟨(Passes.all_plain _ (isReal_plain _ htok)).toS, hbf, ha⟩
+
+/-- one record `#id = NAME ( parameters ) ;` of the fragment, with the layout that follows its `;`: the id is a
+    non-empty digit string whose value fits `int`; the keyword (either letter case) names a non-abstract entity of the
+    dictionary; the parameters are, in order, those of the entity's attributes (inherited ones first), each of a covered
+    kind; between any two tokens stands any sequence of blanks and comments -/
+def RecCovered {F} (env : Env F) (rg : Rec F × List Byte) : Prop :=
+  rg.1.Lex ∧ Seps rg.2 ∧ ∃ e, env.dict.entity? rg.1.name = some e ∧ e.abstract = false ∧ e.attrs = rg.1.ps.map (·.a) ∧
+    ∀ q ∈ rg.1.ps, Covered env q
+
+/-- **read (render p ℓ) = p at file level** (`_partial`, see `Covered` for the parameter kinds and `RecCovered` for the
+    records; not covered: NUMBER attributes, aggregates of element types other than INTEGER, selects, subtype/supertype
+    records in external mapping, entities without attributes, user-defined entities, scopes).  For every dictionary,
+    every reader configuration in which the comment repairs are present (they are in the source: see the
+    `C01_source_*` theorems), either strictness, every number of records with pairwise different ids, every layout
+    between any two tokens of the section, forward and backward references alike (the lookup is the manager pass 1
+    has built from *all* records):  `ReadData1` creates one instance per record, `ReadData2` reads every parameter
+    to the value its token denotes, the file's severity is NULL (p21read exits 0), nothing is reported, and every
+    instance is counted valid. -/
+theorem C01_read_file_partial {F} (ops : FloatOps F) (lex : LexCfg) (cfg : RWCfg) (d : Dict) (strict : Bool)
+    (hskip : cfg.skipInstanceSkipsComments = true) (hcri : lex.criSkipsComments = true) (hagg : cfg.aggrSkipsComments = true)
+    (rs : List (Rec F × List Byte)) (g0 sp gE after : List Byte) (hg0 : Seps g0) (hsp : sp.all isSpace = true) (hgE : Seps gE)
+    (hnd : (rs.map (·.1.id)).Nodup)
+    (hrec : ∀ rg ∈ rs, RecCovered { ops := ops, lex := lex, cfg := cfg, dict := d,
+                                    lookup := Mgr.lookup d ({ insts := rs.map (mkInst d) } : Mgr F) } rg) :
+    ∃ res, readDataSection ops lex cfg d strict false
+        (g0 ++ renderRecs rs (endsec sp (gE ++ (endIso ++ 59 :: after)))) = .ok res ∧
+      res.mgr.insts = rs.map finInst ∧ res.sev = .null ∧ res.ret = .null ∧ exitStatus res.sev = 0 ∧
+      res.created = rs.length ∧ res.notCreated = 0 ∧ res.valid = rs.length ∧ res.invalid = 0 ∧ res.incomplete = 0 ∧
+      ∀ x ∈ res.reported, x = .null := by
+  obtain ⟨res, h, h1, h2, h3, h4, h5, h6, h7, h8, h9⟩ :=
+    readDataSection_recs ops lex cfg hskip d strict sp _ hsp (tailOK_endIso gE hgE after) rs g0 hg0
+      (by
+        intro rg hrg
+        obtain ⟨hl, hg, e, he, habs, _, hcov⟩ := hrec rg hrg
+        exact ⟨hl, hg, fun q hq => covered_scan _ q (hcov q hq), e, he, habs⟩)
+      hnd
+      (by
+        intro rg hrg
+        obtain ⟨hl, hg, e, he, _, hat, hcov⟩ := hrec rg hrg
+        refine ⟨hl, hg, e, he, hat, ?_⟩
+        exact fun q hq => covered_ok _ strict hcri hagg q (hcov q hq))
+  exact ⟨res, h, h1, h2, h3, by rw [h2]; rfl, h4, h5, h6, h7, h8, h9⟩
+
+/-- in the source as it is now the three repairs are present -/
+theorem C01_source_skip_instance_skips_comments : Generated.rwCfg.skipInstanceSkipsComments = true := by decide
 
 /-! ### the comment defects and their repair on the minimal inputs (model level; the check replays them on the code) -/
 
